@@ -50,6 +50,16 @@ static u8_t *getArgsKey(const char *arg)
     return keyout;
 }
 /*
+getArgsTypeNum:从参数中获取模式序号
+arg:参数
+return:模式序号(不能放入一个字节的数字返回-1,而不是回绕到合法序号)
+*/
+static int getArgsTypeNum(const char *arg)
+{
+    long num = strtol(arg, NULL, 10);
+    return (num < 0 || num > 255) ? -1 : (int)num;
+}
+/*
 getRandomBuffer:获取随机的缓冲数组
 r_buf:缓冲数组地址
 */
@@ -163,7 +173,7 @@ bool parseOpts(char c, vpak_t *res)
     case 1:
         if (res->ctype == -1)
         {
-            tnum = atoi(optarg);
+            tnum = getArgsTypeNum(optarg);
             if (!check_ctype(tnum))
             {
                 strlog("Error :", "Wrong ctype");
@@ -181,7 +191,7 @@ bool parseOpts(char c, vpak_t *res)
     case 2:
         if (res->htype == -1)
         {
-            tnum = atoi(optarg);
+            tnum = getArgsTypeNum(optarg);
             if (!check_htype(tnum))
             {
                 strlog("Error :", "Wrong htype");
